@@ -7,6 +7,7 @@ import (
 
 	"github.com/jhump/grpctunnel"
 	"github.com/jhump/grpctunnel/tunnelpb"
+	"github.com/jhump/grpctunnel/verifrt"
 	"google.golang.org/grpc/codes"
 )
 
@@ -72,94 +73,104 @@ func c16Scenarios(tier string) []*Scenario {
 	// (a) raw client -> real server
 	for _, method := range []string{"Unary", "ClientStream", "ServerStream", "Bidi"} {
 		for _, rs := range c16ReqSeqs() {
-			method, rs := method, rs
-			clientStreams := method == "ClientStream" || method == "Bidi"
-			scs = append(scs, &Scenario{
-				Name: fmt.Sprintf("c16/a/%s/%s", method, rs.name), Prop: "C16",
-				Desc: fmt.Sprintf("raw client opens a %s stream on the real server and sends request frame sequence %s (%d complete messages, half-close=%v); the handler reads until the end", method, rs.name, rs.nMsgs, rs.half),
-				Opt:  Options{Level: "io", Bound: bound},
-				Run: func(w *World) {
-					h := grpctunnel.NewTunnelServiceHandler(grpctunnel.TunnelServiceHandlerOptions{})
-					h.RegisterService(&TestSvcDesc, &TestServer{W: w, Name: "fwd"})
-					n := NewNet(w, "T")
-					tunnelpb.RegisterTunnelServiceServer(n, h.Service())
-					hs := &HandlerScript{ID: "s1", Tag: 1, Ops: []HOp{{K: "recvall"}, {K: "send", Size: 3}, {K: "return"}}}
-					if method == "Unary" {
-						hs.Ops = []HOp{{K: "recv"}, {K: "return", Size: 3}}
-					}
-					if method == "ServerStream" {
-						hs.Ops = []HOp{{K: "recv"}, {K: "send", Size: 3}, {K: "return"}}
-					}
-					w.Scripts["s1"] = hs
-					rc, err := w.OpenRawClient(n, true)
-					if err != nil {
-						return
-					}
-					w.Vals["rc"] = rc
-					// the peer hangs up once the stream got its close frame, or when nothing
-					// else can happen any more (a low-priority give-up event)
-					w.GoLow("fault:hangup", func() {
-						w.WaitUntil("hangup", func() bool { return true })
-						w.Log(Event{Actor: "env", Op: "hangup"})
-						w.Vals["hangup"] = true
-					})
-					peer := w.GoPeer("rawclient", func() {
-						_ = rc.Send(fNew(1, "/verif.T/"+method, 1, 65536, "s1"))
-						for _, f := range rs.frames {
-							if rc.Send(f()) != nil {
-								break
+			for _, burst := range []bool{false, true} {
+				method, rs, burst := method, rs, burst
+				clientStreams := method == "ClientStream" || method == "Bidi"
+				scs = append(scs, &Scenario{
+					Name: fmt.Sprintf("c16/a/%s/%s/burst=%v", method, rs.name, burst), Prop: "C16",
+					Desc: fmt.Sprintf("raw client opens a %s stream on the real server and sends request frame sequence %s (%d complete messages, half-close=%v), frame by frame as the server digests them (burst=false) or all at once before the server reads anything (burst=true); the handler reads until the end", method, rs.name, rs.nMsgs, rs.half),
+					Opt:  Options{Level: "io", Bound: bound},
+					Run: func(w *World) {
+						h := grpctunnel.NewTunnelServiceHandler(grpctunnel.TunnelServiceHandlerOptions{})
+						h.RegisterService(&TestSvcDesc, &TestServer{W: w, Name: "fwd"})
+						n := NewNet(w, "T")
+						tunnelpb.RegisterTunnelServiceServer(n, h.Service())
+						hs := &HandlerScript{ID: "s1", Tag: 1, Ops: []HOp{{K: "recvall"}, {K: "send", Size: 3}, {K: "return"}}}
+						if method == "Unary" {
+							hs.Ops = []HOp{{K: "recv"}, {K: "return", Size: 3}}
+						}
+						if method == "ServerStream" {
+							hs.Ops = []HOp{{K: "recv"}, {K: "send", Size: 3}, {K: "return"}}
+						}
+						w.Scripts["s1"] = hs
+						rc, err := w.OpenRawClient(n, true)
+						if err != nil {
+							return
+						}
+						w.Vals["rc"] = rc
+						// the peer hangs up once the stream got its close frame, or when nothing
+						// else can happen any more (a low-priority give-up event)
+						w.GoLow("fault:hangup", func() {
+							w.WaitUntil("hangup", func() bool { return true })
+							w.Log(Event{Actor: "env", Op: "hangup"})
+							w.Vals["hangup"] = true
+						})
+						script := func() {
+							_ = rc.Send(fNew(1, "/verif.T/"+method, 1, 65536, "s1"))
+							for _, f := range rs.frames {
+								if rc.Send(f()) != nil {
+									break
+								}
+							}
+							w.WaitUntil("raw:settled", func() bool { return len(rc.CloseOf(1)) > 0 || w.Vals["hangup"] != nil || rc.Done })
+							rc.Finish()
+						}
+						var peer *verifrt.Thread
+						if burst {
+							// a normal-priority thread whose name sorts first: by default it says
+							// everything before the server's receive loop reads the first frame
+							peer = w.Go("a-rawclient", true, script)
+						} else {
+							peer = w.GoPeer("rawclient", script)
+						}
+						w.Join(peer)
+						w.Drain()
+					},
+					Check: func(w *World, x *Exec) []Violation {
+						vs := NoHang(x, "C16")
+						if x.Hang {
+							return vs
+						}
+						bad := func(rule, sig, d string) {
+							vs = append(vs, Violation{Prop: "C16", Rule: rule, Sig: sig, Detail: d + "\n" + w.Outcome()})
+						}
+						observed := 0
+						for _, e := range w.EventsOf("handler:s1") {
+							if e.Op == "recv" && e.OK() {
+								observed++
 							}
 						}
-						w.WaitUntil("raw:settled", func() bool { return len(rc.CloseOf(1)) > 0 || w.Vals["hangup"] != nil || rc.Done })
-						rc.Finish()
-					})
-					w.Join(peer)
-					w.Drain()
-				},
-				Check: func(w *World, x *Exec) []Violation {
-					vs := NoHang(x, "C16")
-					if x.Hang {
+						rc, _ := w.Vals["rc"].(*RawClient)
+						if rc == nil {
+							return vs
+						}
+						cl := rc.CloseOf(1)
+						if !clientStreams {
+							if observed > 1 {
+								bad("handler-sees-at-most-one-request", "shape:handler-saw-several-requests:"+method, fmt.Sprintf("handler of non-client-streaming %s observed %d request messages", method, observed))
+							}
+							if rs.nMsgs >= 2 {
+								if observed > 0 {
+									bad("handler-sees-at-most-one-request", "shape:handler-invoked-with-request-despite-several:"+method, fmt.Sprintf("%d requests were sent but the handler still observed one", rs.nMsgs))
+								}
+								if len(cl) == 1 && codes.Code(cl[0].GetStatus().GetCode()) != codes.InvalidArgument {
+									bad("several-requests-fail-invalid-argument", "shape:wrong-code:"+codes.Code(cl[0].GetStatus().GetCode()).String(), fmt.Sprintf("%d requests on %s closed with %s", rs.nMsgs, method, codes.Code(cl[0].GetStatus().GetCode())))
+								}
+								if len(cl) == 0 && w.Vals["hangup"] == nil {
+									bad("several-requests-fail-invalid-argument", "shape:no-close", "no close frame")
+								}
+							}
+							if rs.nMsgs == 1 && rs.half && len(cl) == 1 && codes.Code(cl[0].GetStatus().GetCode()) != codes.OK && trailingPartial(rs) == false {
+								bad("single-request-accepted", "shape:single-request-rejected", fmt.Sprintf("one request + half-close on %s closed with %s(%s)", method, codes.Code(cl[0].GetStatus().GetCode()), cl[0].GetStatus().GetMessage()))
+							}
+						} else if rs.half && observed != rs.nMsgs && len(cl) == 1 && codes.Code(cl[0].GetStatus().GetCode()) == codes.OK {
+							bad("streaming-requests-all-delivered", "shape:stream-lost-requests", fmt.Sprintf("handler observed %d of %d requests", observed, rs.nMsgs))
+						}
+						vs = append(vs, NoLeak(w, x, "C16")...)
 						return vs
-					}
-					bad := func(rule, sig, d string) {
-						vs = append(vs, Violation{Prop: "C16", Rule: rule, Sig: sig, Detail: d + "\n" + w.Outcome()})
-					}
-					observed := 0
-					for _, e := range w.EventsOf("handler:s1") {
-						if e.Op == "recv" && e.OK() {
-							observed++
-						}
-					}
-					rc, _ := w.Vals["rc"].(*RawClient)
-					if rc == nil {
-						return vs
-					}
-					cl := rc.CloseOf(1)
-					if !clientStreams {
-						if observed > 1 {
-							bad("handler-sees-at-most-one-request", "shape:handler-saw-several-requests:"+method, fmt.Sprintf("handler of non-client-streaming %s observed %d request messages", method, observed))
-						}
-						if rs.nMsgs >= 2 {
-							if observed > 0 {
-								bad("handler-sees-at-most-one-request", "shape:handler-invoked-with-request-despite-several:"+method, fmt.Sprintf("%d requests were sent but the handler still observed one", rs.nMsgs))
-							}
-							if len(cl) == 1 && codes.Code(cl[0].GetStatus().GetCode()) != codes.InvalidArgument {
-								bad("several-requests-fail-invalid-argument", "shape:wrong-code:"+codes.Code(cl[0].GetStatus().GetCode()).String(), fmt.Sprintf("%d requests on %s closed with %s", rs.nMsgs, method, codes.Code(cl[0].GetStatus().GetCode())))
-							}
-							if len(cl) == 0 && w.Vals["hangup"] == nil {
-								bad("several-requests-fail-invalid-argument", "shape:no-close", "no close frame")
-							}
-						}
-						if rs.nMsgs == 1 && rs.half && len(cl) == 1 && codes.Code(cl[0].GetStatus().GetCode()) != codes.OK && trailingPartial(rs) == false {
-							bad("single-request-accepted", "shape:single-request-rejected", fmt.Sprintf("one request + half-close on %s closed with %s(%s)", method, codes.Code(cl[0].GetStatus().GetCode()), cl[0].GetStatus().GetMessage()))
-						}
-					} else if rs.half && observed != rs.nMsgs && len(cl) == 1 && codes.Code(cl[0].GetStatus().GetCode()) == codes.OK {
-						bad("streaming-requests-all-delivered", "shape:stream-lost-requests", fmt.Sprintf("handler observed %d of %d requests", observed, rs.nMsgs))
-					}
-					vs = append(vs, NoLeak(w, x, "C16")...)
-					return vs
-				},
-			})
+					},
+				})
+			}
 		}
 	}
 	// (b) raw server -> real client
